@@ -51,6 +51,12 @@ RUNS = [
          quick=dict(explore=40000), thorough=dict(explore=150000), corpus=False),
     dict(name="sem-max-fair", prim="semaphore", cfg="2 1 18446744073709551612 3 2 18446744073709551615 1", flavours=["local", "sync", "shared"],
          quick=dict(explore=40000), thorough=dict(explore=150000), corpus=False),
+    # three waiters with requests up to 3 on three permits, two releasers: deep hand-over chains
+    # (exhaustive only in the thorough tier: 1.6M states)
+    dict(name="sem-k3-p3-unfair", prim="semaphore", cfg="3 0 3 3 2 3 1", flavours=["local"],
+         quick=dict(explore=40000), thorough=dict(explore=2000000), corpus=False),
+    dict(name="sem-k3-p3-fair", prim="semaphore", cfg="3 1 3 3 2 3 1", flavours=["local"],
+         quick=dict(explore=40000), thorough=dict(explore=2000000), corpus=False),
     dict(name="sem-k3-unfair", prim="semaphore", cfg="3 0 0 2 1 2 1", flavours=["local", "shared"],
          quick=dict(explore=30000), thorough=dict(explore=3000000), corpus=False),
     dict(name="sem-k3-fair", prim="semaphore", cfg="3 1 0 2 1 2 1", flavours=["local", "shared"],
@@ -68,7 +74,7 @@ RUNS += [
     dict(name="mpmc-c1-22", prim="mpmc", cfg="2 2 1 0 0", flavours=["local"],
          quick=dict(explore=0), thorough=dict(explore=4000000), corpus=False),
     dict(name="mpmc-c1-31", prim="mpmc", cfg="3 1 1 0 0", flavours=["local"],
-         quick=dict(explore=30000), thorough=dict(explore=3000000), corpus=False),
+         quick=dict(explore=80000), thorough=dict(explore=3000000), corpus=False),
     dict(name="mpmc-c2-22", prim="mpmc", cfg="2 2 2 0 0", flavours=["local"],
          quick=dict(explore=30000, random=(400, 40)), thorough=dict(explore=6000000), corpus=False),
     dict(name="mpmc-shared-c0", prim="mpmc", cfg="1 1 0 1 2", flavours=["shared", "shared-growing"],
@@ -141,7 +147,7 @@ RUNS += [
 MPMC_RUNS = ["mpmc-c0", "mpmc-c1", "mpmc-c2", "mpmc-c1-22", "mpmc-c1-31", "mpmc-c2-22", "mpmc-shared-c0", "mpmc-shared-c1", "mpmc-shared-c1-h3"]
 ONESHOT_RUNS = ["oneshot-local", "bcast-local", "oneshot-shared", "bcast-shared"]
 MUTEX_RUNS = ["mutex-k3-unfair", "mutex-k3-fair", "mutex-k4-unfair", "mutex-k4-fair"]
-SEM_RUNS = ["sem-k2-unfair", "sem-k2-fair", "sem-k2-unfair-p1", "sem-k2-fair-p1", "sem-k3-unfair", "sem-k3-fair", "sem-max-unfair", "sem-max-fair"]
+SEM_RUNS = ["sem-k2-unfair", "sem-k2-fair", "sem-k2-unfair-p1", "sem-k2-fair-p1", "sem-k3-unfair", "sem-k3-fair", "sem-max-unfair", "sem-max-fair", "sem-k3-p3-unfair", "sem-k3-p3-fair"]
 
 # ---------------------------------------------------------------------------------------------
 ALL_RUNS_FOR_PROTOCOL = None
@@ -214,7 +220,7 @@ PROPS = {
         level="proof", extra=["atomic_audit", "threads"], coq_files=["Properties/C06.v"],
         theorems={"Properties/C06.v": ["C06_head_not_stranded", "C06_progress", "C06_refuted_pinned"]},
         runs=SEM_RUNS, keys=["r", "w", "p"], assumptions=[SCHED_NOTE, "wakers private to each future (so that wake events are attributable from the trace)"],
-        monitor=dict(id=6, runs=["sem-k2-unfair", "sem-k2-fair", "sem-max-unfair", "sem-max-fair"]),
+        monitor=dict(id=6, runs=["sem-k2-unfair", "sem-k2-fair", "sem-max-unfair", "sem-max-fair", "sem-k3-p3-unfair"]),
         level_text="Theorem over all histories of the repaired code, both fairness modes: at every quiescent point, if requests are pending and none holds an unconsumed wake-up then the longest-waiting one (ordering rule of the property, recomputed from the trace) does not fit into permits(); notified request that fits completes when polled; plus a machine-checked refutation for the pre-repair model (finding D1a). Correspondence on results, ordered wakes and permits(); the extracted monitor is also evaluated on the crate's own traces to exhibit a failing history; runs at the usize::MAX boundary included.",
         level_note="'Eventually completes' is the invariant + one-step progress, not a temporal theorem. " + SCHED_NOTE,
     ),
@@ -245,7 +251,7 @@ PROPS = {
     "C10": dict(
         level="proof", extra=["atomic_audit", "threads"], coq_files=["Properties/C10.v"],
         theorems={"Properties/C10.v": ["C10_recv_woken_trace", "C10_recv_woken", "C10_sender_woken", "C10_after_close_all_woken", "C10_progress", "C10_sender_progress"]},
-        runs=MPMC_RUNS, keys=["r", "w", "p"], monitor=dict(id=10, runs=["mpmc-c0", "mpmc-c1", "mpmc-shared-c0", "mpmc-c2-22", "mpmc-shared-c1-h3"]),
+        runs=MPMC_RUNS, keys=["r", "w", "p"], monitor=dict(id=10, runs=["mpmc-c0", "mpmc-c1", "mpmc-shared-c0", "mpmc-c2-22", "mpmc-shared-c1-h3", "mpmc-c1-31"]),
         assumptions=[SCHED_NOTE],
         level_text="Theorem over all histories: after every call, value available and receivers pending => some pending receiver woken since its last poll through that poll's waker (monitor on the trace + state-level version); accepted sender woken; all pending futures woken after close; progress lemmas (unqueued receiver polled while a value is available gets the oldest value; completed sender polls Ok). Correspondence on results and ordered wake lists.",
         level_note="'Never deadlock' is the safety invariant + one-step progress, not a temporal theorem. " + SCHED_NOTE,
